@@ -5,6 +5,7 @@ import TdxModel.Drive.Retry
 import TdxModel.Drive.Validate
 import TdxModel.Drive.Rtmr
 import TdxModel.Drive.PckExt
+import TdxModel.Drive.CheckTool
 
 open Tdx Tdx.Proto Tdx.Drive
 
@@ -20,6 +21,8 @@ def dispatch (l : Line) : P String :=
   | "C14.val" => c14val l
   | "C17" => c17 l
   | "C13" => c13 l
+  | "C19.run" => c19 Tdx.CheckTool.fixed l
+  | "C19.pinned" => c19 Tdx.CheckTool.pinned l
   | op => .error s!"unknown op {op}"
 
 partial def loop (h : IO.FS.Stream) (out : IO.FS.Stream) (blobs : List (Nat × Bytes)) : IO Unit := do
